@@ -91,6 +91,28 @@ class Canon:
                         self.with_defs.setdefault(it.optional_vars.id, it.context_expr)
         self.single = {k: v for k, v in defs.items() if counts.get(k) == 1 and k not in self.params and k not in self.loopnames
                        and not isinstance(v, (ast.List, ast.Dict, ast.Set, ast.ListComp, ast.DictComp))}
+        # a local whose only definitions are the arms of one if / elif / else (x = A if c else B written as a statement) reads as that
+        # conditional expression
+        def arms(node, name):
+            """(IfExp, number of assignments) when `node` is an if-chain whose every arm is exactly `name = <expr>`."""
+            if not (isinstance(node, ast.If) and len(node.body) == 1 and len(node.orelse) == 1):
+                return None
+            b, o = node.body[0], node.orelse[0]
+            if not (isinstance(b, ast.Assign) and len(b.targets) == 1 and isinstance(b.targets[0], ast.Name) and b.targets[0].id == name):
+                return None
+            if isinstance(o, ast.Assign) and len(o.targets) == 1 and isinstance(o.targets[0], ast.Name) and o.targets[0].id == name:
+                return ast.IfExp(test=node.test, body=b.value, orelse=o.value), 2
+            sub = arms(o, name)
+            if sub is None:
+                return None
+            return ast.IfExp(test=node.test, body=b.value, orelse=sub[0]), 1 + sub[1]
+        for n in walk_no_nested(fn):
+            if isinstance(n, ast.If) and len(n.body) == 1 and isinstance(n.body[0], ast.Assign) and len(n.body[0].targets) == 1 \
+                    and isinstance(n.body[0].targets[0], ast.Name):
+                nm = n.body[0].targets[0].id
+                got = arms(n, nm)
+                if got is not None and counts.get(nm) == got[1] and nm not in self.params and nm not in self.loopnames:
+                    self.single[nm] = got[0]
         # locals assigned more than once: named after their FIRST definition, so that renaming them changes no key
         self.multi_first: Dict[str, ast.expr] = {}
         self.multi_defs: Dict[str, List[ast.expr]] = {}
@@ -166,7 +188,7 @@ class Canon:
         if fn == "enumerate" and isinstance(target, (ast.Tuple, ast.List)) and len(target.elts) == 2 and it.args:
             if isinstance(target.elts[0], ast.Name):
                 self.loopvars[target.elts[0].id] = "#pos"
-                self.pos_text[target.elts[0].id] = f"each(range(len({self.text(it.args[0])})))"
+                self.pos_text[target.elts[0].id] = "each(range(" + self.text(ast.Call(func=ast.Name(id="len", ctx=ast.Load()), args=[it.args[0]], keywords=[])) + "))"
             self._bind_loop(target.elts[1], it.args[0])
             return
         if fn == "range" and isinstance(target, ast.Name) and it.args:
@@ -258,6 +280,9 @@ class Canon:
                 if fname in ("range", "np.arange", "numpy.arange") and len(n.args) == 2 and not n.keywords and const(n.args[0]) == 0 \
                         and isinstance(n.args[0], ast.Constant) and n.args[0].value is not False:
                     n.args = [n.args[1]]
+                if fname == "len" and len(n.args) == 1 and not n.keywords and isinstance(n.args[0], ast.Attribute) and n.args[0].attr == "shape" \
+                        and isinstance(n.args[0].value, ast.Name) and n.args[0].value.id == "self":
+                    return ast.Attribute(value=n.args[0].value, attr="ndims", ctx=ast.Load())     # the tensor classes define ndims = len(shape)
                 if fname == "len" and len(n.args) == 1 and not n.keywords:
                     a0 = n.args[0]
                     while isinstance(a0, ast.Call) and (dotted(a0.func) or "") in ("tuple", "list") and len(a0.args) == 1 and not a0.keywords:
@@ -539,6 +564,10 @@ class GuardScan:
                 # (an early exit in a branch is recorded as an Exit and shows up in exits_before)
                 if not out_t and not out_f:
                     pcs = []
+                elif in_loop and not st.orelse and st.body and isinstance(st.body[-1], ast.Continue) \
+                        and not any(isinstance(x, (ast.Return, ast.Raise)) for b in st.body for x in ast.walk(b)):
+                    # `if C: continue` - the rest of the loop body runs under not-C, exactly like `if not C: <rest>`
+                    pcs = fp
                 continue
             if isinstance(st, ast.Assert):
                 if isinstance(st.test, ast.Constant) and st.test.value is False:
